@@ -22,6 +22,11 @@ pub struct C11Case {
     pub salt: u32,
     /// (position, how many allocations it stays outstanding) — delay < 65000
     pub keep: Vec<(u32, u16)>,
+    /// run the operations from 4 OS threads (each on its own clone, 8 operations in flight
+    /// per thread) while this thread runs the context: real concurrency on the shared
+    /// counters. The schedule is not owned; the oracle does not depend on it.
+    #[serde(default)]
+    pub threads: bool,
 }
 
 pub struct C11;
@@ -40,7 +45,7 @@ impl Property for C11 {
     type Case = C11Case;
 
     fn strategy(tier: Tier) -> BoxedStrategy<C11Case> {
-        (
+        let s = (
             tier.pick(66_000u32..70_000, 66_000u32..140_000),
             1u8..5,
             any::<u32>(),
@@ -52,7 +57,13 @@ impl Property for C11 {
                 0..40,
             ),
         )
-            .prop_map(|(total, handles, salt, keep)| C11Case { total, handles, salt, keep })
+            .prop_map(|(total, handles, salt, keep)| C11Case { total, handles, salt, keep, threads: false })
+            .boxed();
+        (s, prop::bool::weighted(0.25))
+            .prop_map(|(mut c, t)| {
+                c.threads = t;
+                c
+            })
             .boxed()
     }
 
@@ -72,6 +83,9 @@ impl Property for C11 {
     }
 
     fn run(case: &C11Case) -> Outcome {
+        if case.threads {
+            return run_c11_threads(case);
+        }
         let mut o = Outcome::ok();
         let plan = WritePlan::default();
         let mut w = World::new();
@@ -212,6 +226,170 @@ impl Property for C11 {
         }
         o
     }
+}
+
+/// C11 with real threads: 4 OS threads issue the operations (8 in flight each) on their own
+/// handle clones while this thread polls the context and plays the broker.
+fn run_c11_threads(case: &C11Case) -> Outcome {
+    use futures::future::join_all;
+    use std::sync::atomic::{AtomicBool, Ordering};
+    use std::sync::Arc;
+    let mut o = Outcome::ok();
+    o.class("multi-thread");
+    let plan = WritePlan::default();
+    let mut w = World::new();
+    if let Err(e) = connect_and_run(&mut w, ConnectSpec::default(), &default_connack(), &plan) {
+        return Outcome::fail("HARNESS/prologue", e);
+    }
+    w.sync_wire();
+    let mut seen = w.pkts.len();
+    const THREADS: u32 = 4;
+    const INFLIGHT: u32 = 8;
+    let per_thread = case.total / THREADS + 1;
+    let stop = Arc::new(AtomicBool::new(false));
+    let mut joins = vec![];
+    for t in 0..THREADS {
+        let h = w.handles[0].as_ref().unwrap().clone();
+        let salt = case.salt.wrapping_add(t);
+        let stop = stop.clone();
+        joins.push(std::thread::spawn(move || -> Result<(), String> {
+            let mut i = 0u32;
+            while i < per_thread && !stop.load(Ordering::Relaxed) {
+                let batch: Vec<_> = (0..INFLIGHT)
+                    .map(|k| {
+                        let mut h = h.clone();
+                        let kind = kind_at(salt, i + k);
+                        async move {
+                            match kind {
+                                0..=3 => h.publish(poster::PublishOpts::new().qos(poster::QoS::AtLeastOnce).topic_name("t")).await.map(|_| ()),
+                                4..=6 => h.publish(poster::PublishOpts::new().qos(poster::QoS::ExactlyOnce).topic_name("t")).await.map(|_| ()),
+                                7..=8 => h.subscribe(poster::SubscribeOpts::new().subscription("f", poster::SubscriptionOpts::new())).await.map(|_| ()),
+                                _ => h.unsubscribe(poster::UnsubscribeOpts::new().topic_filter("f")).await.map(|_| ()),
+                            }
+                        }
+                    })
+                    .collect();
+                let r = std::panic::catch_unwind(std::panic::AssertUnwindSafe(|| futures::executor::block_on(join_all(batch))));
+                match r {
+                    Ok(_) => {}
+                    Err(p) => {
+                        let msg = p.downcast_ref::<String>().cloned().or_else(|| p.downcast_ref::<&str>().map(|s| s.to_string())).unwrap_or_default();
+                        return Err(msg);
+                    }
+                }
+                i += INFLIGHT;
+            }
+            Ok(())
+        }));
+    }
+    // broker + context on this thread
+    let mut pending: std::collections::VecDeque<(u16, u8)> = Default::default(); // (pid, kind: 1 puback, 2 pubrec, 3 suback, 4 unsuback)
+    let mut outstanding: BTreeSet<u16> = BTreeSet::new();
+    let mut sub_ids: BTreeSet<u32> = BTreeSet::new();
+    let mut idle = 0u32;
+    let mut allocations = 0u64;
+    let mut max_out = 0usize;
+    let ack = |w: &mut World, pid: u16, kind: u8| {
+        let p = match kind {
+            1 => rc::Packet::Puback(rc::Ack { pid, ..Default::default() }),
+            2 => rc::Packet::Pubrec(rc::Ack { pid, ..Default::default() }),
+            5 => rc::Packet::Pubcomp(rc::Ack { pid, ..Default::default() }),
+            3 => rc::Packet::Suback(rc::AckList { pid, reasons: vec![0], ..Default::default() }),
+            _ => rc::Packet::Unsuback(rc::AckList { pid, reasons: vec![0], ..Default::default() }),
+        };
+        w.reader.feed(rc::encode(&p, &rc::Form::canonical()));
+    };
+    loop {
+        w.poll_ctx();
+        if let Some((who, m)) = w.panics.first() {
+            o.fail = Some(Failure { sig: format!("C11/panic/{}", panic_sig(m)), msg: format!("{who}: {m}") });
+            break;
+        }
+        w.sync_wire();
+        let new = w.pkts.len() - seen;
+        for p in &w.pkts[seen..] {
+            match &p.decoded {
+                Ok(rc::Packet::Publish(x)) => {
+                    let pid = x.pid.unwrap_or(0);
+                    allocations += 1;
+                    if pid == 0 || !outstanding.insert(pid) {
+                        o.fail = Some(Failure { sig: if pid == 0 { "C11/packet-identifier-zero".into() } else { "C11/identifier-reused-while-outstanding".into() }, msg: format!("[4 threads] PUBLISH with packet identifier {pid} after {allocations} allocations; {} outstanding", outstanding.len()) });
+                    }
+                    pending.push_back((pid, if x.qos == 1 { 1 } else { 2 }));
+                }
+                Ok(rc::Packet::Subscribe(x)) => {
+                    allocations += 1;
+                    if !outstanding.insert(x.pid) {
+                        o.fail = Some(Failure { sig: "C11/identifier-reused-while-outstanding".into(), msg: format!("[4 threads] SUBSCRIBE with packet identifier {} still in use", x.pid) });
+                    }
+                    match x.sub_id {
+                        Some(id) if sub_ids.insert(id) => {}
+                        other => o.fail = Some(Failure { sig: "C11/subscription-identifier-not-fresh".into(), msg: format!("[4 threads] subscription identifier {other:?}") }),
+                    }
+                    pending.push_back((x.pid, 3));
+                }
+                Ok(rc::Packet::Unsubscribe(x)) => {
+                    allocations += 1;
+                    if !outstanding.insert(x.pid) {
+                        o.fail = Some(Failure { sig: "C11/identifier-reused-while-outstanding".into(), msg: format!("[4 threads] UNSUBSCRIBE with packet identifier {} still in use", x.pid) });
+                    }
+                    pending.push_back((x.pid, 4));
+                }
+                Ok(rc::Packet::Pubrel(a)) => pending.push_back((a.pid, 5)),
+                Ok(_) => {}
+                Err(e) => {
+                    let sig = if e.0.contains("packet identifier 0") { "C11/packet-identifier-zero" } else { "C11/malformed" };
+                    o.fail = Some(Failure { sig: sig.into(), msg: format!("[4 threads] {}", e.0) });
+                }
+            }
+        }
+        seen = w.pkts.len();
+        max_out = max_out.max(outstanding.len());
+        if o.fail.is_some() {
+            break;
+        }
+        // acknowledge: keep up to 16 requests outstanding, release everything when idle
+        idle = if new == 0 { idle + 1 } else { 0 };
+        while pending.len() > 16 || (idle > 200 && !pending.is_empty()) {
+            let (pid, kind) = pending.pop_front().unwrap();
+            if kind != 2 {
+                // a QoS 2 identifier stays in use until its PUBCOMP
+                outstanding.remove(&pid);
+            }
+            ack(&mut w, pid, kind);
+            idle = 0;
+        }
+        if joins.iter().all(|j| j.is_finished()) && pending.is_empty() {
+            break;
+        }
+        if idle > 2_000_000 {
+            o.fail = Some(Failure { sig: "HARNESS/c11-threads-stuck".into(), msg: format!("no progress; {allocations} allocations, {} pending", pending.len()) });
+            break;
+        }
+        std::thread::yield_now();
+    }
+    stop.store(true, Ordering::Relaxed);
+    // let blocked workers finish: acknowledge whatever is still pending, then drop the context
+    while let Some((pid, kind)) = pending.pop_front() {
+        ack(&mut w, pid, kind);
+    }
+    w.poll_ctx();
+    w.drop_ctx();
+    for j in joins {
+        match j.join() {
+            Ok(Ok(())) => {}
+            Ok(Err(m)) if o.fail.is_none() => {
+                o.fail = Some(Failure { sig: format!("C11/panic/{}", panic_sig(&m)), msg: format!("[4 threads] an operation panicked on a worker thread: {m}") });
+            }
+            Err(_) if o.fail.is_none() => {
+                o.fail = Some(Failure { sig: "C11/panic/worker-thread".into(), msg: "[4 threads] a worker thread panicked".into() });
+            }
+            _ => {}
+        }
+    }
+    o.nontrivial = allocations > 65_536 && max_out >= 2;
+    o.class(format!("max-outstanding-{}", (max_out / 10) * 10));
+    o
 }
 
 // =====================================================================================
